@@ -567,7 +567,9 @@ var AddDefaults = []string{"", "DEFAULT 5", "DEFAULT -3", "DEFAULT +7", "DEFAULT
 	"DEFAULT 'Infinity'", "DEFAULT '-inf'", "DEFAULT 'nan'", "DEFAULT 'NaN'", "DEFAULT '0x10'", "DEFAULT '0x1p4'", "DEFAULT '+-5'", "DEFAULT '++5'", "DEFAULT '+5'", "DEFAULT '-5'",
 	"DEFAULT '5.'", "DEFAULT '.5'", "DEFAULT '5e'", "DEFAULT '1_000'", "DEFAULT '1.0'", "DEFAULT '1.50'", "DEFAULT '9223372036854775808'", "DEFAULT '-9223372036854775809'",
 	"DEFAULT '00012'", "DEFAULT '012'", "DEFAULT 'e5'", "DEFAULT '1e5'", "DEFAULT '123abc'", "DEFAULT x'00ff'", "DEFAULT x''", "DEFAULT 1e999", "DEFAULT -1e999", "DEFAULT 0.0", "DEFAULT -0.0", "DEFAULT '-0'",
-	"DEFAULT '1e-400'", "DEFAULT 100000000000000000000", "DEFAULT '100000000000000000000'", "DEFAULT .5", "DEFAULT 5.", "DEFAULT 1e+2", "DEFAULT '1E2'"}
+	"DEFAULT '1e-400'", "DEFAULT 100000000000000000000", "DEFAULT '100000000000000000000'", "DEFAULT .5", "DEFAULT 5.", "DEFAULT 1e+2", "DEFAULT '1E2'",
+	// the first and the last digit in every place a digit can stand
+	"DEFAULT '9'", "DEFAULT '0'", "DEFAULT '90'", "DEFAULT '-19'", "DEFAULT '0.9'", "DEFAULT '9.0'", "DEFAULT '1e9'", "DEFAULT '1e09'", "DEFAULT '+9'", "DEFAULT '.9'", "DEFAULT '.0'", "DEFAULT '1e0'", "DEFAULT '9e-9'"}
 
 // IntegerArgsPK tells whether the table has a shape that used to be a listed
 // known finding (repaired by def0057; now only counted as a coverage class):
